@@ -368,4 +368,51 @@ theorem compactLoop_spec (src : Bytes) (escape : Bool) : ∀ (rest pre : Bytes) 
         rw [V_of_ge src _ (i + 1) (by simpa using hge), V_of_ge src st i (by omega)]; simp
       · intro E' hE'; simpa using hE'
 
+
+/-! ### `compact` -/
+
+/-- what `compact` returns, through the loop specification -/
+theorem compact_spec (escape : Bool) (src : Bytes) :
+    compact escape src = .ok none ∨
+    ∃ E, compact escape src = .ok (some E) ∧ Acc Scanner.new E := by
+  obtain ⟨st', e', hw', hc'⟩ := compactLoop_spec src escape src [] { scan := Scanner.new, out := [], start := 0 } 0
+    rfl rfl wf_new rfl (Or.inl (Nat.le_refl _))
+  unfold compact
+  simp only [e', Res.bind_ok]
+  obtain ⟨s'', op, he, hr⟩ := eof_resid st'.scan hw'
+  simp only [he, Res.bind_ok]
+  by_cases hop : op = .error
+  · left; subst hop; rfl
+  · right
+    have hop' : (op == Op.error) = false := by simpa using hop
+    simp only [hop', Bool.false_eq_true, if_false]
+    have herr := eof_err_false _ _ _ he hop
+    obtain ⟨hle, E, hE, hacc⟩ := hc' herr ⟨s'', op, he, hop⟩
+    have hV0 : V src { scan := Scanner.new, out := [], start := 0 } 0 = [] := by simp [V, pend]
+    rw [hV0, List.nil_append] at hE
+    refine ⟨E, ?_, hacc⟩
+    by_cases hlt : st'.start < src.length
+    · rw [if_pos hlt, slice_ok src _ _ hle (Nat.le_refl _)]
+      simp only [Res.bind_ok, Res.pure_eq]
+      rw [← hE]; rfl
+    · rw [if_neg hlt]
+      simp only [Res.pure_eq]
+      rw [← hE, V_of_ge src st' _ (by omega)]
+
+/-- **`compact` never panics** (no slice expression goes out of range, the scanner does not index an empty stack) -/
+theorem compact_ok (escape : Bool) (src : Bytes) : ∃ o, compact escape src = .ok o := by
+  rcases compact_spec escape src with h | ⟨E, h, _⟩
+  · exact ⟨_, h⟩
+  · exact ⟨_, h⟩
+
+/-- **what `compact` writes is one JSON value**, nested at most `maxNestingDepth` deep -/
+theorem compact_valid (escape : Bool) (src out : Bytes) (h : compact escape src = .ok (some out)) :
+    IsVal out ∧ isJsonD maxNestingDepth out = true := by
+  rcases compact_spec escape src with h0 | ⟨E, hE, hacc⟩
+  · rw [h0] at h; cases h
+  · rw [hE] at h; injection h with h; injection h with h; subst h
+    have hj : isJsonD maxNestingDepth E = true := by rw [← resid_new]; exact hacc.acc
+    obtain ⟨c, t, hct, hws⟩ := hacc.head rfl
+    exact ⟨isVal_of_isJson E (isJsonD_isJson _ _ hj) c t hct hws hacc.last, hj⟩
+
 end UgoVerif.Proofs.Json
